@@ -268,12 +268,14 @@ class Inliner:
         f = call.func
         if isinstance(f, ast.Name) and f.id in new.get(None, {}):
             return new[None][f.id], None, False
-        if isinstance(f, ast.Attribute) and isinstance(f.value, ast.Name) and f.value.id == "self" and cnode is not None:
+        if isinstance(f, ast.Attribute) and isinstance(f.value, ast.Name) and cnode is not None and f.value.id in ("self", "cls", cnode.name):
             for c in self._class_chain(m, cnode):
                 if f.attr in c.__dict__.get("_own_methods", {}):
                     h = c._own_methods[f.attr]
                     if f.attr in new.get(c.name, {}):
                         static = any(isinstance(d, ast.Name) and d.id == "staticmethod" for d in h.decorator_list)
+                        if f.value.id != "self" and not static:
+                            return None      # Class.method(...) / cls.method(...) on a non-static helper: not handled
                         return h, f.value, not static
                     return None      # resolves to a known method first
         return None
@@ -386,11 +388,35 @@ class Inliner:
                     h, recv, is_method = r
                     try:
                         prefix, body = _prepare(h, call, recv, is_method, _names(fn))
+                        if mode == "assign" and len(s.targets) == 1 and isinstance(s.targets[0], ast.Name):
+                            # `x = self._h(...)` where every return of the helper hands back the same helper-local: that local *is* x
+                            tname = s.targets[0].id
+                            rets = [n for b_ in body for n in ast.walk(b_) if isinstance(n, ast.Return)]
+                            locs = {n.value.id for n in rets if isinstance(n.value, ast.Name)}
+                            wrapper_ = ast.Module(body=body, type_ignores=[])
+                            if rets and len(locs) == 1 and all(isinstance(n.value, ast.Name) for n in rets):
+                                (loc,) = locs
+                                if loc in _stored(wrapper_) and tname not in _names(wrapper_):
+                                    _Ren({loc: tname}).visit(wrapper_)
                         if mode == "expr":
                             mk = lambda e, at: [] if e is None or isinstance(e, (ast.Constant, ast.Name)) else [ast.copy_location(ast.Expr(value=e), at)]
                         elif mode == "assign":
                             tg = s.targets
-                            mk = lambda e, at: [ast.copy_location(ast.Assign(targets=copy.deepcopy(tg), value=e if e is not None else ast.Constant(None)), at)]
+                            def mk(e, at, tg=tg):
+                                if isinstance(e, ast.Name) and len(tg) == 1 and isinstance(tg[0], ast.Name) and tg[0].id == e.id:
+                                    return []
+                                # `a, b = helper()` with `return x, y` inside: element-wise assignments when no element reads a target
+                                if len(tg) == 1 and isinstance(tg[0], (ast.Tuple, ast.List)) and isinstance(e, (ast.Tuple, ast.List)) \
+                                        and len(tg[0].elts) == len(e.elts) and all(isinstance(x, ast.Name) for x in tg[0].elts) \
+                                        and not ({x.id for x in tg[0].elts} & {n.id for v in e.elts for n in ast.walk(v) if isinstance(n, ast.Name)}
+                                                 - {x.id for x, v in zip(tg[0].elts, e.elts) if isinstance(v, ast.Name) and v.id == x.id}):
+                                    out_ = []
+                                    for x, v in zip(tg[0].elts, e.elts):
+                                        if isinstance(v, ast.Name) and v.id == x.id:
+                                            continue
+                                        out_.append(ast.copy_location(ast.Assign(targets=[copy.deepcopy(x)], value=v), at))
+                                    return out_
+                                return [ast.copy_location(ast.Assign(targets=copy.deepcopy(tg), value=e if e is not None else ast.Constant(None)), at)]
                         else:
                             mk = lambda e, at: [ast.copy_location(ast.Return(value=e), at)]
                         new_body, ended = _convert(body, mk)
@@ -409,6 +435,24 @@ class Inliner:
                 # expression-level: single-return helpers anywhere inside this statement's own expressions
                 if inl._subst_exprs(m, cnode, fn, s, new):
                     changed = True
+                # a helper call that is a direct argument of this statement's call (`out.append(self._h(x))`) and is not a single
+                # expression: hoist it into a temporary assigned just before the statement, then inline that assignment next round
+                outer = s.value if isinstance(s, (ast.Expr, ast.Assign, ast.Return)) and isinstance(getattr(s, "value", None), ast.Call) else None
+                if outer is not None:
+                    hoisted = False
+                    for ai, a in enumerate(outer.args):
+                        r2 = inl._resolve(m, cnode, a, new) if isinstance(a, ast.Call) else None
+                        if r2 and r2[0] is not fn and _inlinable_shape(r2[0]):
+                            inl._tmp = getattr(inl, "_tmp", 0) + 1
+                            tn = f"inlined_value_{inl._tmp}"
+                            block.insert(i, ast.copy_location(ast.Assign(targets=[ast.Name(id=tn, ctx=ast.Store())], value=a), s))
+                            outer.args[ai] = ast.copy_location(ast.Name(id=tn, ctx=ast.Load()), a)
+                            ast.fix_missing_locations(block[i])
+                            hoisted = True
+                            break
+                    if hoisted:
+                        changed = True
+                        continue
                 for fld in ("body", "orelse", "finalbody"):
                     b = getattr(s, fld, None)
                     if isinstance(b, list) and b and isinstance(b[0], ast.stmt):
